@@ -15,6 +15,21 @@ def main() -> int:
     faulthandler.enable()
     with open(spec_path) as f:
         spec = json.load(f)
+    # a shard never outlives its driver (a killed driver cannot fire its watchdog) nor its own hard deadline
+    import threading
+    import time
+    ppid0, t0, hard = os.getppid(), time.time(), float(spec.get("timeout_s", 1500)) + 120
+
+    def lifeguard():
+        while True:
+            time.sleep(2)
+            if os.getppid() != ppid0 or time.time() - t0 > hard:
+                try:
+                    import signal
+                    os.killpg(os.getpgid(0), signal.SIGKILL) if os.getpgid(0) == os.getpid() else None
+                finally:
+                    os._exit(3)
+    threading.Thread(target=lifeguard, daemon=True, name="verif-lifeguard").start()
     mod = importlib.import_module(f"vlib.checks.{pid.lower()}")
     col = Collector(pid, spec)
     try:
